@@ -19,3 +19,14 @@ Definition kind_same (a b : kind) : bool :=
 Definition oracle_colval (setform : bool) (k k2 kobs : kind) (v : pyv) (observed : res val) : bool :=
   let kexp := if setform then k2 else k in
   res_eqv (nf kexp v) observed && match observed with Ok _ => kind_same kobs kexp | Raise _ => true end.
+
+(* a scalar written through a form that addresses NO cell (empty selection / slice / index list, zero-row table):
+   the L0 right-hand side (Spec/Table.rhs_cells with n = 0) still evaluates the coercion of the scalar, so the
+   write raises exactly when the normal form raises.  observed = None: accepted; Some e: e was raised. *)
+From DM Require Import Spec.Table.
+Definition oracle_zero (k : kind) (v : pyv) (observed : option exn) : bool :=
+  match rhs_cells k 0 (RScalar v), observed with
+  | Ok nil, None => true
+  | Raise e, Some e' => exn_eqb e e'
+  | _, _ => false
+  end.
